@@ -19,6 +19,7 @@ def r6(ctx):
 
 
 RULES = {
+    "C12.RW": lambda ctx: __import__("rules.foundations", fromlist=["x"]).wire_types_derived_only(ctx, "C12.RW"),
     "C12.RG": lambda ctx: __import__("rules.foundations", fromlist=["x"]).no_global_state(ctx, "C12.RG"),
     "C12.RL": lambda ctx: __import__("rules.common", fromlist=["x"]).loop_exit_rule(ctx, "C12.RL", {'decoder::strip_junk_header': 1, 'decoder::StripHeaderReader::<R>::strip_head_read': 5}),
     "C12.R1": lambda ctx: hdrrules.convergence(ctx, "C12.R1"),
